@@ -38,6 +38,7 @@ type Case struct {
 	Procs                              int
 	SkipNodes, SkipWays, SkipRelations bool
 	ModeN, ModeW, ModeR                int
+	Headerless                         bool
 }
 
 func accept(mode int, id int64, version int, ntags int, nchildren int, lat float64, isNode bool) bool {
@@ -129,7 +130,11 @@ func check(c Case) error {
 		calls = append(calls, shown{ptr: o, snap: pbfgen.Snap(o), copy: cloneObj(o)})
 		mu.Unlock()
 	}
-	s := osmpbf.New(context.Background(), bytes.NewReader(enc.Data), c.Procs)
+	data := enc.Data
+	if c.Headerless {
+		data = data[enc.Header.End:] // a resumed scan: the stream starts at the first data block
+	}
+	s := osmpbf.New(context.Background(), bytes.NewReader(data), c.Procs)
 	defer s.Close()
 	s.SkipNodes, s.SkipWays, s.SkipRelations = c.SkipNodes, c.SkipWays, c.SkipRelations
 	if c.ModeN != pNil {
@@ -299,7 +304,7 @@ func classify(c Case) (bool, []string) {
 func TestFilter(t *testing.T) {
 	harness.Run(t, harness.Spec[Case]{
 		Name: "filter", N: 1500,
-		Rule: "generated PBF files (1..5 blocks, sequential ids in half of the cases so id parity alternates) x all 8 skip-flag combinations x per-type predicate from {none installed, accept-all, reject-all, id parity, hash(id,version) mod 3, tagged, untagged, >=2 children, <2 children} x decoder count; oracle = the model's unfiltered sequence filtered by the same pure predicate in the harness, deep snapshots at receipt vs end of scan, snapshot the filter saw vs object returned, and the multiset of elements shown to the filters vs the model; non-trivial = some rejected element is immediately followed in its block by an accepted element of the same kind with fewer tags/children (where reused memory could leak)",
+		Rule: "generated PBF files (1..5 blocks, sequential ids in half of the cases so id parity alternates) x all 8 skip-flag combinations x stream start (whole file, or - one case in five - at the first data block like a resumed scan) x per-type predicate from {none installed, accept-all, reject-all, id parity, hash(id,version) mod 3, tagged, untagged, >=2 children, <2 children} x decoder count; oracle = the model's unfiltered sequence filtered by the same pure predicate in the harness, deep snapshots at receipt vs end of scan, snapshot the filter saw vs object returned, and the multiset of elements shown to the filters vs the model; non-trivial = some rejected element is immediately followed in its block by an accepted element of the same kind with fewer tags/children (where reused memory could leak)",
 		Gen: func(t *rapid.T) Case {
 			f := pbfgen.GenFile(t, pbfgen.Opt{MinBlocks: 1, MaxBlocks: 5, SeqIDs: rapid.Bool().Draw(t, "seq"), Big: rapid.IntRange(0, 3).Draw(t, "big") == 0})
 			return Case{
@@ -311,6 +316,7 @@ func TestFilter(t *testing.T) {
 				ModeN:         rapid.IntRange(0, nModes-1).Draw(t, "mn"),
 				ModeW:         rapid.IntRange(0, nModes-1).Draw(t, "mw"),
 				ModeR:         rapid.IntRange(0, nModes-1).Draw(t, "mr"),
+				Headerless:    rapid.IntRange(0, 4).Draw(t, "headerless") == 0,
 			}
 		},
 		Check:    check,
